@@ -27,7 +27,7 @@ class C09(ObjCheck):
             "wrongly sized value, attribute of another class, missing mandatory attribute), wrong session state, dead "
             "handles. After every call that returns != CKR_OK the complete census (C_FindObjects + every attribute) through "
             "EVERY open session is compared with the model state committed by the last successful call, and at the end of "
-            "the history again after a user login, after C_Finalize/C_Initialize, and against the decoded token directory. "
+            "the history again after a user login, after C_Finalize/C_Initialize, and against the decoded token directory; one history in three runs on the SQLite backend. "
             "Non-trivial = a failing call whose template is valid up to a position >= 1 (a prefix could have been applied), or a fault case in which "
             "the injected failure fired and the call returned an error. " + "")
     essential_labels = {"template_invalid_at_pos>0": 100, "views_checked": 500, "fault_cases_call_failed": 40}
@@ -47,11 +47,36 @@ class C09(ObjCheck):
     def setup(self, ctx):
         ObjCheck.setup(self, ctx)
         ctx.shared["fstage"] = Stage(ctx.env, ctx.shared["tpl"], reuse=False)
+        from vlib.env import Template
+        ctx.shared["tpl_db"] = Template(ctx.env, ntokens=2, backend="db")
+        ctx.shared["stage_db"] = Stage(ctx.env, ctx.shared["tpl_db"], reuse=not ctx.replaying)
 
     def run_program(self, ctx, prog):
         if isinstance(prog, dict) and prog.get("fault"):
             return self.run_fault(ctx, prog)
+        # one history in three runs on the SQLite backend (chosen by the program's own content, so that a replay takes the same one)
+        import json
+        if len(json.dumps(prog)) % 3 == 0:
+            return self.run_on_db(ctx, prog)
+        ctx.label("backend_file")
         return ObjCheck.run_program(self, ctx, prog)
+
+    def run_on_db(self, ctx, prog):
+        from vlib.objworld import World
+        if ctx.kf.entry("KF-C20-01") and ctx.kf.entry("KF-C20-01")["status"].startswith("open"):
+            # known finding excluded by construction (as in C05 / C06): C_CopyObject is unusable on the SQLite backend
+            n0 = len(prog)
+            prog = [op for op in prog if op[0] != "copy"]
+            ctx.label("excluded_db_copy_ops", n0 - len(prog))
+        w = ctx.shared["stage_db"].fresh()
+        world = World(ctx, w, ctx.shared["tpl_db"].tokens, prog, **self.world_kw)
+        world.run()
+        self.finish(ctx, world, prog)
+        labels = set(world.labels)
+        for k, v in world.counts.items():
+            ctx.label(k, v)
+        ctx.label("backend_db")
+        ctx.case(prog, world.nontrivial, labels)
 
     def probe_known(self, ctx, entry):
         """KF-C09-03: a C_DestroyObject whose unlink fails answers an error - and the object is gone for the process"""
